@@ -127,8 +127,50 @@ def generic_judgement(res, kind, dialect, text, outcome, replay_extra=None):
     return True
 
 
+# malformed constructs the relaxed dialect tolerates; the shipped strict dialects must refuse them.  What a
+# dialect enables is taken from the documentation, not from pysmi.parser.dialect
+TOLERATED_ONLY_WHEN_RELAXED = ['import_comma', 'sequence_comma', 'enum_trailing', 'enum_spaces', 'upper_enum',
+                               'upper_notification', 'trap_braces', 'no_cells']
+
+
+def case_strict_dialects(idx, rng, tier, res):
+    from checks import c17_dialects as c17
+    g = c02_ast.make_set(rng, tier, [f for f in c02_ast.FEATURES])
+    order = list(TOLERATED_ONLY_WHEN_RELAXED)
+    rng.shuffle(order)
+    kind = site = None
+    for k in order:
+        site = c17.plant(g, rng, k)
+        if site is not None:
+            kind = k
+            break
+    if kind is None:
+        return
+    toks = []
+    for m in g.modules:
+        toks += m.tokens()
+    text = Layout(rng, 'noisy' if rng.random() < 0.5 else 'plain').join(toks)
+    nmut = 0
+    for dialect in ('smiV2', 'smiV1'):
+        oc = attempt(dialect, text)
+        if not generic_judgement(res, 'strict_' + kind, dialect, text, oc):
+            continue
+        nmut += 1
+        res.count('tolerated_constructs_under_strict_dialects')
+        res.cell('strict:%s:%s' % (dialect, kind))
+        if oc[0] == 'ok':
+            res.violation('malformed_accepted_by_strict_dialect', 'the %s dialect accepted a text with %s at %s - a construct '
+                          'only the relaxed dialect tolerates' % (dialect, kind, site),
+                          replay={'text': text, 'dialect': dialect}, mutation=kind, dialect=dialect)
+    res.evals = nmut
+    res.sig = harness.stable_hash([text])
+    res.nontrivial = nmut > 0
+
+
 def run_case(idx, rng, tier, res):
     from pysmi import error
+    if idx % 8 == 5:
+        return case_strict_dialects(idx, rng, tier, res)
     feats = [f for f in c02_ast.FEATURES if f != 'tags']
     g = c02_ast.make_set(rng, tier, feats)
     # keep texts small: one or two modules per text
